@@ -106,7 +106,7 @@ Definition iter_chunks     := iter_by (flag F_CHUNKTERM).
 Definition iter_sentences  := iter_by (flag F_SENTTERM).
 Definition iter_paragraphs := iter_by (flag F_PARABREAK).
 
-(* ---------- LongSentences::lint as it is now: the spans it reports ---------- *)
+(* ---------- LongSentences::lint as it is now (be8029b, 1bab09f): the spans it reports ---------- *)
 Definition count_words (s : list tok) : nat := length (filter (flag F_WORD) s).
 
 Fixpoint long_sentence_spans (span_of : list tok -> res span) (ss : list (list tok)) : res (list span) :=
@@ -122,8 +122,16 @@ Fixpoint long_sentence_spans (span_of : list tok -> res span) (ss : list (list t
 Definition hull_unwrap (s : list tok) : res span :=
   match hull s with None => Panic PUnwrap | Some r => r end.
 
+(* sentence.iter().position(|t| !t.kind.is_whitespace()).unwrap_or(0) *)
+Definition first_visible (s : list tok) : nat :=
+  match position (fun t => negb (flag F_WS t)) s with Some i => i | None => 0 end.
+
+(* sentence[first..].span().unwrap()   (1bab09f: the flagged text starts at the first visible token) *)
+Definition visible_hull (s : list tok) : res span :=
+  do s' <- slice_from s (first_visible s); hull_unwrap s'.
+
 Definition long_sentences (ts : list tok) : res (list span) :=
-  do ss <- iter_sentences ts; long_sentence_spans hull_unwrap ss.
-(* before be8029b *)
+  do ss <- iter_sentences ts; long_sentence_spans visible_hull ss.
+(* before be8029b (F2): Span::new(first.start, last.end) *)
 Definition long_sentences_old (ts : list tok) : res (list span) :=
   do ss <- iter_sentences ts; long_sentence_spans first_last_span ss.
